@@ -52,6 +52,13 @@ StartPoints ==
      am \in {"vec", "raw", "held"},   \* held: converted to reproc::arguments first, the source container changed afterwards
      em \in {"none", "raw"}, em2 \in {"vec", "map", "raw"}, r \in {1, 0, -22}}
 
+\* a null argument vector handed to start(): it is passed on as it is, start() stays start() (fork mode is fork()'s alone) and the
+\* C result comes back unchanged
+NullArgPoints ==
+  {[op |-> op, o |-> Base, args |-> <<>>, argmode |-> "null", envmode |-> "none", ret |-> r,
+    exp |-> [c |-> [MapOptions(Base, FALSE, "none", <<>>) EXCEPT !.argvnull = 1], res |-> MapResult(0, r)]] :
+     op \in {"start", "clone_start"}, r \in {-22, 1}}
+
 Rets == {-22, -32, -110, -12, -11, -5, -4, -2, 0, 1, 7, 143}   \* (-4: an interrupted call is reported like any other error, once, not retried)
 MethodPoints ==
   {[op |-> "method", m |-> "pid", ret |-> r, exp |-> [last |-> "pid", res |-> MapResult(r, r)]] : r \in Rets}
@@ -71,7 +78,7 @@ MethodPoints ==
 
 ConstPoints == {[op |-> "consts", exp |-> [same |-> 1]]}
 
-Points == StartPoints \cup MethodPoints \cup ConstPoints
+Points == StartPoints \cup NullArgPoints \cup MethodPoints \cup ConstPoints
 
 Init == phase = "pick" /\ pt \in Points
 Next == phase = "pick" /\ phase' = "done" /\ UNCHANGED pt /\ PrintT(<<"BEH", ToJson(pt)>>)
